@@ -302,6 +302,18 @@ func newPool(root string, r *hx.Rng, G int64) (*pool, error) {
 // pickDur: a duration that puts end+d at now ± δ (δ from 2 s to one group), or 0, or
 // something far away; |endRel + d| ≥ margin always (or d = 0).
 func pickDur(r *hx.Rng, endRel, G int64) int64 {
+	d := pickDurRaw(r, endRel, G)
+	// never inside the margin around the expiry instant (and not accidentally 0)
+	for d != 0 && abs(endRel+d) < margin {
+		d += margin
+		if d == 0 {
+			d += margin
+		}
+	}
+	return d
+}
+
+func pickDurRaw(r *hx.Rng, endRel, G int64) int64 {
 	switch k := r.Intn(100); {
 	case k < 18:
 		return 0
@@ -317,10 +329,7 @@ func pickDur(r *hx.Rng, endRel, G int64) int64 {
 	}
 	d := -endRel + delta
 	if d == 0 {
-		d = 1
-		if endRel+d < margin && endRel+d > -margin {
-			d = -endRel + margin
-		}
+		d = margin
 	}
 	return d
 }
